@@ -1,16 +1,20 @@
 import FeatModel.Lemmas.C17ThreadLayers
 import FeatModel.Lemmas.C17Layered
 import FeatModel.Lemmas.C17Colored
+import FeatModel.Lemmas.C17NoScatter
+import FeatModel.Lemmas.C17Cover
+import FeatModel.Lemmas.C17Neighbours
+import FeatModel.Lemmas.C17Bfs
 /-! # C17 — threaded assembly is race-free, terminates and equals the serial result
 
 All theorems are about the model functions that `drv_c17` executes and that the correspondence run compares with
 `Assembly::DomainAssembler` (`buildThreadLayers` in the `dist` stream; `LCfg.step` / `CCfg.step` in the `trace`
 stream, where every recorded event log of a real run must be a run of these transition systems).
 
-Not proved here (observed by the correspondence run and its oracle only): `_build_layers` yields a partition into
-BFS levels with adjacent cells in equal or consecutive layers; the greedy colouring is proper (C19); termination
-under a fair scheduler (only deadlock-freedom is proved); the error path `okay = false`; the C++ memory model. -/
-open FeatModel.DA
+Not proved here (observed by the correspondence run and its oracle only): termination under a fair scheduler
+(only deadlock-freedom is proved); the error path `okay = false`; the C++ memory model (sequentially consistent
+atomic steps are assumed; ThreadSanitizer observes the real code). -/
+open FeatModel.DA FeatModel.Adj
 
 /-- `_build_thread_layers`, all three sweeps, for EVERY layer-offset list and every requested worker count that
 leaves at least one worker: no unsigned wrap-around, both `XASSERT`s hold, and the result starts at 0, ends at the
@@ -106,6 +110,153 @@ theorem C17.colored_combine_mutex (c : CCfg) (s : CSt) (hs : c.Reach s)
     (a b : Nat) (ha : 1 ≤ a ∧ a ≤ c.n) (hb : 1 ≤ b ∧ b ≤ c.n)
     (hA : s.ph a = .inComb) (hB : s.ph b = .inComb) : a = b :=
   FeatModel.DA.colored_combine_mutex c s hs a b ha hb hA hB
+
+/-- jobs without scatter (every strategy; `assemble()` then only opens the front fence and joins, the workers run
+`_work_no_scatter` without touching a fence): no deadlock -/
+theorem C17.noscatter_no_deadlock (c : NCfg) (s : NSt) (hs : c.Reach s) (hf : NCfg.final s = false) :
+    ∃ e s', c.step s e = some s' :=
+  FeatModel.DA.noscatter_no_deadlock c s hs hf
+
+/-- jobs without scatter: `combine()` is mutually exclusive -/
+theorem C17.noscatter_combine_mutex (c : NCfg) (s : NSt) (hs : c.Reach s)
+    (a b : Nat) (ha : 1 ≤ a ∧ a ≤ c.n) (hb : 1 ≤ b ∧ b ≤ c.n)
+    (hA : s.ph a = .inComb) (hB : s.ph b = .inComb) : a = b :=
+  FeatModel.DA.noscatter_combine_mutex c s hs a b ha hb hA hB
+
+/-- `_build_graphs`: cell `j` is a neighbour of cell `i` in the element-neighbours graph iff the two cells share a
+vertex; the graph is square, well-formed, symmetric and duplicate-free -/
+theorem C17.neighbours_spec (nvt : Nat) (vae : List (List Nat)) (hv : ∀ l, l ∈ vae → ∀ v, v ∈ l → v < nvt)
+    (i j : Nat) :
+    j ∈ (neighbours nvt vae).row i ↔ i < vae.length ∧ j < vae.length ∧ ∃ v, v ∈ vae.getD i [] ∧ v ∈ vae.getD j [] :=
+  FeatModel.DA.neighbours_spec nvt vae hv i j
+
+theorem C17.neighbours_wf (nvt : Nat) (vae : List (List Nat)) (hv : ∀ l, l ∈ vae → ∀ v, v ∈ l → v < nvt) :
+    (neighbours nvt vae).nImg = (neighbours nvt vae).nDom ∧ (neighbours nvt vae).nDom = vae.length ∧
+    (neighbours nvt vae).wf = true ∧
+    (∀ i j, j ∈ (neighbours nvt vae).row i → i ∈ (neighbours nvt vae).row j) ∧
+    (∀ i, ((neighbours nvt vae).row i).Nodup) :=
+  FeatModel.DA.neighbours_wf nvt vae hv
+
+/-- `_build_layers` (all four reverse/sorted variants): every selected cell lies in exactly one layer — the new
+element list is a permutation of the old one, and the layer offsets are a strictly increasing cut of it (non-empty
+layers) from 0 to the number of cells -/
+theorem C17.layers_partition (g : Graph) (elemIdx : List Nat) (reverse sorted : Bool)
+    (hsq : g.nImg = g.nDom) (hwf : g.wf = true) (hlen : elemIdx.length = g.nDom) (hn : 0 < g.nDom)
+    (ei le : List Nat) (h : buildLayers g elemIdx reverse sorted = some (ei, le)) :
+    ei.Perm elemIdx ∧ le.getD 0 0 = 0 ∧ le.getD (le.length - 1) 0 = ei.length ∧
+      (∀ i j, i < j → j < le.length → le.getD i 0 < le.getD j 0) :=
+  bfs_layers_partition g elemIdx reverse sorted hsq hwf hlen hn ei le h
+
+/-- `_build_layers`: adjacent cells lie in equal or consecutive layers, also across components — no layer `l` lies
+strictly between the positions `p`, `q` of two adjacent cells (by symmetry of the graph: in either order).  This is
+exactly the negation of the conclusion of `layered_safe`. -/
+theorem C17.bfs_adjacent_levels (g : Graph) (elemIdx : List Nat) (reverse sorted : Bool)
+    (hsq : g.nImg = g.nDom) (hwf : g.wf = true) (hsym : ∀ i j, j ∈ g.row i → i ∈ g.row j)
+    (hlen : elemIdx.length = g.nDom) (hnd : elemIdx.Nodup)
+    (ei le : List Nat) (h : buildLayers g elemIdx reverse sorted = some (ei, le))
+    (p q i j l : Nat) (hp : p < ei.length) (hq : q < ei.length) (hi : i < g.nDom)
+    (hpi : ei.getD p 0 = elemIdx.getD i 0) (hqj : ei.getD q 0 = elemIdx.getD j 0) (hadj : j ∈ g.row i)
+    (hl : l + 1 < le.length) :
+    ¬ (p < le.getD l 0 ∧ le.getD (l + 1) 0 ≤ q) :=
+  FeatModel.DA.bfs_adjacent_levels g elemIdx reverse sorted hsq hwf hsym hlen hnd ei le h p q i j l hp hq hi hpi hqj
+    hadj hl
+
+/-- the layered chain end to end, on the model functions the driver runs: BFS layers (`buildLayers`) → thread layers
+(`buildThreadLayers`, any requested worker count) → fence protocol (`LCfg`), for ALL interleavings: two workers
+that are inside `scatter()` at the same time are never on adjacent cells of the graph. -/
+theorem C17.layered_never_adjacent (g : Graph) (elemIdx : List Nat) (reverse sorted : Bool)
+    (hsq : g.nImg = g.nDom) (hwf : g.wf = true) (hsym : ∀ i j, j ∈ g.row i → i ∈ g.row j)
+    (hlen : elemIdx.length = g.nDom) (hnd : elemIdx.Nodup) (hn : 0 < g.nDom)
+    (ei le : List Nat) (h : buildLayers g elemIdx reverse sorted = some (ei, le))
+    (maxW : Nat) (hW : 1 ≤ numWorkersLayered maxW le) (cell : Nat → Nat) (comb : Bool) :
+    ∃ tl : List Nat, buildThreadLayers maxW ei.length le = some (numWorkersLayered maxW le, tl) ∧
+      ∀ s, (LCfg.ofFns (numWorkersLayered maxW le) (fun k => le.getD k 0) (fun k => tl.getD k 0) cell comb).Reach s →
+        ∀ a b, 1 ≤ a → a < b → b ≤ numWorkersLayered maxW le → s.ph a = .insc → s.ph b = .insc →
+          ∀ i j, i < g.nDom → j < g.nDom → ei.getD (s.pos a) 0 = elemIdx.getD i 0 →
+            ei.getD (s.pos b) 0 = elemIdx.getD j 0 → j ∉ g.row i ∧ i ∉ g.row j := by
+  obtain ⟨_, _, hlast, hmono⟩ := bfs_layers_partition g elemIdx reverse sorted hsq hwf hlen hn ei le h
+  obtain ⟨tl, hb, _, _, htlast, hgap⟩ := buildThreadLayers_spec maxW ei.length le hW
+  have h3 : 3 * numWorkersLayered maxW le ≤ le.length := by
+    unfold numWorkersLayered
+    have := Nat.div_mul_le_self le.length 3
+    omega
+  have hle' : ∀ i j, i < j → j ≤ (fun k => tl.getD k 0) (numWorkersLayered maxW le) →
+      (fun k => le.getD k 0) i < (fun k => le.getD k 0) j := by
+    intro i j hij hj
+    simp only [] at hj ⊢
+    exact hmono i j hij (by omega)
+  refine ⟨tl, hb, ?_⟩
+  intro s hs a b ha hab hbn hA hB i j hi hj hpi hqj
+  obtain ⟨l, hlb, hpl, hql⟩ := layered_safe_bounded (numWorkersLayered maxW le) (fun k => le.getD k 0)
+    (fun k => tl.getD k 0) cell comb hle' hgap s hs a b ha hab hbn hA hB
+  have hpa := layered_insc_pos_lt (numWorkersLayered maxW le) (fun k => le.getD k 0)
+    (fun k => tl.getD k 0) cell comb hle' hgap s hs a ha (by omega) hA
+  have hpb := layered_insc_pos_lt (numWorkersLayered maxW le) (fun k => le.getD k 0)
+    (fun k => tl.getD k 0) cell comb hle' hgap s hs b (by omega) hbn hB
+  have hlb : l + 1 ≤ tl.getD (numWorkersLayered maxW le) 0 := hlb
+  have hpl : s.pos a < le.getD l 0 := hpl
+  have hql : le.getD (l + 1) 0 ≤ s.pos b := hql
+  have hpa : s.pos a < le.getD (tl.getD (numWorkersLayered maxW le) 0) 0 := hpa
+  have hpb : s.pos b < le.getD (tl.getD (numWorkersLayered maxW le) 0) 0 := hpb
+  rw [htlast] at hlb hpa hpb
+  rw [hlast] at hpa hpb
+  have key : ∀ i j, i < g.nDom → ei.getD (s.pos a) 0 = elemIdx.getD i 0 →
+      ei.getD (s.pos b) 0 = elemIdx.getD j 0 → j ∉ g.row i := by
+    intro i j hi hpi hqj hadj
+    exact FeatModel.DA.bfs_adjacent_levels g elemIdx reverse sorted hsq hwf hsym hlen hnd ei le h
+      (s.pos a) (s.pos b) i j l hpa hpb hi hpi hqj hadj (by omega) ⟨hpl, hql⟩
+  refine ⟨key i j hi hpi hqj, fun hadj => ?_⟩
+  exact key i j hi hpi hqj (hsym j i hadj)
+
+/-- `_build_colors` on the neighbours graph of a mesh: the new element list is the old one rearranged colour by
+colour (every selected cell exactly once), and two different cells of one colour block never share a vertex.
+With `colored_safe` (simultaneous scatters are in the same colour, on different positions): never on
+vertex-adjacent cells. -/
+theorem C17.colors_proper (nvt : Nat) (vae : List (List Nat)) (hv : ∀ l, l ∈ vae → ∀ v, v ∈ l → v < nvt)
+    (elemIdx : List Nat) (maxW : Nat) :
+    ∃ loc : List Nat,
+      (buildColors (neighbours nvt vae) elemIdx maxW).2.1 = loc.map (fun k => elemIdx.getD k 0) ∧
+      loc.Perm (List.range vae.length) ∧
+      (∀ c p q, c + 1 < (buildColors (neighbours nvt vae) elemIdx maxW).2.2.length →
+        (buildColors (neighbours nvt vae) elemIdx maxW).2.2.getD c 0 ≤ p → p < q →
+        q < (buildColors (neighbours nvt vae) elemIdx maxW).2.2.getD (c + 1) 0 →
+        ¬ ∃ v, v ∈ vae.getD (loc.getD p 0) [] ∧ v ∈ vae.getD (loc.getD q 0) []) := by
+  obtain ⟨hsq, hnd, hwf, hsym, _⟩ := FeatModel.DA.neighbours_wf nvt vae hv
+  obtain ⟨loc, h1, h2, h3⟩ := FeatModel.DA.colors_proper (neighbours nvt vae) elemIdx maxW hsq hwf hsym
+  refine ⟨loc, h1, hnd ▸ h2, ?_⟩
+  intro c p q hc hp hpq hq ⟨v, hv1, hv2⟩
+  have := (h3 c p q hc hp hpq hq).1
+  exact this ((FeatModel.DA.neighbours_spec nvt vae hv _ _).2
+    ⟨nbr_getD_lt hv1, nbr_getD_lt hv2, v, hv1, hv2⟩)
+
+/-- every selected cell is assembled exactly once: the cell sequences of the workers together are the element list
+(no-scatter jobs, layered strategies given the thread-layer spec, colored strategy up to order) -/
+theorem C17.workers_cover_noscatter (d : Dist) (h : 1 ≤ d.nW) :
+    (List.range d.nW).flatMap (fun k => workerCells d false (k + 1)) = d.elemIdx :=
+  workerCells_cover_noscatter d h
+
+theorem C17.workers_cover_layered (d : Dist) (h : 1 ≤ d.nW) (hs : d.strategy ≠ 4)
+    (h0 : d.layerElems.getD (d.threadLayers.getD 0 0) 0 = 0)
+    (hn : d.layerElems.getD (d.threadLayers.getD d.nW 0) 0 = d.elemIdx.length)
+    (hm : ∀ w, w < d.nW → d.layerElems.getD (d.threadLayers.getD w 0) 0 ≤ d.layerElems.getD (d.threadLayers.getD (w + 1) 0) 0) :
+    (List.range d.nW).flatMap (fun k => workerCells d true (k + 1)) = d.elemIdx :=
+  workerCells_cover_layered d h hs h0 hn hm
+
+theorem C17.workers_cover_colored (d : Dist) (h : 1 ≤ d.nW) (hs : d.strategy = 4)
+    (hlen : 1 ≤ d.colorElems.length) (h0 : d.colorElems.getD 0 0 = 0)
+    (hn : d.colorElems.getD (d.colorElems.length - 1) 0 = d.elemIdx.length)
+    (hm : ∀ c, c + 1 < d.colorElems.length → d.colorElems.getD c 0 ≤ d.colorElems.getD (c + 1) 0) :
+    ((List.range d.nW).flatMap (fun k => workerCells d true (k + 1))).Perm d.elemIdx :=
+  workerCells_cover_colored d h hs hlen h0 hn hm
+
+/-- the assembled result does not depend on the order in which the cell contributions are added (any commutative,
+associative accumulation — exact arithmetic; in floating point this is "up to summation-order rounding"):
+every schedule's order of the same cells gives the single-threaded result -/
+theorem C17.threaded_eq_serial {α : Type} (op : α → α → α) (hc : ∀ a b, op a b = op b a)
+    (ha : ∀ a b c, op (op a b) c = op a (op b c)) (contrib : Nat → α) (z : α)
+    (order cells : List Nat) (h : order.Perm cells) :
+    order.foldl (fun acc c => op acc (contrib c)) z = cells.foldl (fun acc c => op acc (contrib c)) z :=
+  FeatModel.DA.threaded_eq_serial op hc ha contrib z order cells h
 
 /-- the hypotheses of `thread_layers_spec` / `layered_safe_built` are satisfiable by a non-trivial value:
 8 layers of sizes 1..8, 3 requested workers -/
